@@ -75,12 +75,13 @@ def budgets_for(tier: str) -> Dict[str, int]:
 
 
 class ConfigExplorer:
-    def __init__(self, acc: Acc, cfg: Cfg, tier: str, checkers: Sequence[Checker], on_searcher=None):
+    def __init__(self, acc: Acc, cfg: Cfg, tier: str, checkers: Sequence[Checker], on_searcher=None, db_hook=None):
         self.acc = acc
         self.cfg = cfg
         self.tier = tier
         self.checkers = list(checkers)
         self.on_searcher = on_searcher
+        self.db_hook = db_hook
         self.horizon = 60 if tier == "quick" else 150
         self.seen_specs: Dict[str, bool] = {}
         self.outcomes: Dict[str, int] = {}
@@ -124,6 +125,7 @@ class ConfigExplorer:
             horizon=self.horizon,
             on_searcher=self.on_searcher,
             slice_script=slice_script,
+            db_hook=self.db_hook,
         )
         payload["prefix"] = ex.dec.choices()
         self._handle(ex, payload)
@@ -176,7 +178,7 @@ class ConfigExplorer:
                     self.on_searcher(s)
 
             payload = {"cfg": self.cfg.to_json(), "prefix": list(prefix), "slice_default": 0, "horizon": self.horizon, "slice_script": None}
-            ex = execute(self.cfg, prefix, slice_default=0, horizon=self.horizon, on_searcher=on_s, dec=dec)
+            ex = execute(self.cfg, prefix, slice_default=0, horizon=self.horizon, on_searcher=on_s, dec=dec, db_hook=self.db_hook)
             payload["prefix"] = dec.choices()
             self._handle(ex, payload)
             trace = dec.trace
@@ -186,7 +188,7 @@ class ConfigExplorer:
                     stack.append([x for x, _, _ in trace[:i]] + [1])
 
 
-def replay_execution(payload: dict, on_searcher=None) -> Tuple[Cfg, Execution]:
+def replay_execution(payload: dict, on_searcher=None, db_hook=None) -> Tuple[Cfg, Execution]:
     cfg = Cfg.from_json(payload["cfg"])
     ex = execute(
         cfg,
@@ -195,6 +197,7 @@ def replay_execution(payload: dict, on_searcher=None) -> Tuple[Cfg, Execution]:
         horizon=payload.get("horizon", 60),
         on_searcher=on_searcher,
         slice_script=payload.get("slice_script"),
+        db_hook=db_hook,
     )
     if ex.dec.choices()[: len(payload["prefix"])] != list(payload["prefix"])[: len(ex.dec.choices())]:
         raise HarnessError("replay diverged from the recorded decisions")
